@@ -41,6 +41,22 @@ ASSUMPTIONS = ['v2/v3 files without a flags_description table (the default descr
 DOC = ['reserved0', 'static', 'cam', 'data_lost', 'ingest_rfi', 'predicted_rfi', 'cal_rfi', 'postproc']
 
 
+def _have(ctx, wire):
+    """Is this wire of the extracted model usable?  (A Model file that does not compile on the tree under test - e.g.
+    because a translator item it needs failed closed - is left out of the driver; the streams then go on with the
+    Python fallbacks as the failing-input search.)"""
+    if not ctx.model_ok:
+        return False
+    try:
+        import json
+        import os
+        from vh import core
+        lo = os.path.join(core.EXTRACT_DIR, 'left_out_wires.json')
+        return not (os.path.exists(lo) and str(wire) in json.load(open(lo)))
+    except Exception:
+        return True
+
+
 def codes(s):
     return [ord(c) for c in s]
 
@@ -336,7 +352,7 @@ def interleave(ctx, fmt, d, stored, lost, base_vis):
     d.select()
     trace.append(({}, _internal(fmt, d)))
     # the internal state (mask, weight indices) after every call against the faithful model of select() (wire 162)
-    if ctx.model_ok:
+    if _have(ctx, 162):
         hw = [[_wire_opt(k, 'flags'), _wire_opt(k, 'weights')] for k, _ in trace]
         mo = ctx.model([[162, [1, FMT_CODE[fmt], hw]]])[0]
         for j, (k, (mask, wts)) in enumerate(trace):
@@ -404,8 +420,9 @@ FLAG_POOL = ['all', '', [], 'cam', 'postproc', 'data_lost', 'cam,postproc', 'dat
              'postproc,data_lost', ' cam , postproc ', 'bogus', ['nope', 'postproc'], ['cam', 'cam'], 'reserved0',
              'predicted_rfi', list(DOC)]
 # the first configurations of every run are forced so that every seed meets the important corners
-FORCED = [dict(calmode='G', nan=True, lose=True), dict(calmode='GB', nan=True, lose=True),
-          dict(calmode='none', lose=True), dict(calmode='B', nan=True, lose=False)]
+FORCED = [dict(calmode='G', nan=True, lose=True, layout='straddle'), dict(calmode='GB', nan=True, lose=True),
+          dict(calmode='none', lose=True, layout='straddle'), dict(calmode='B', nan=True, lose=False)]
+ARRAYS = ('correlator_data', 'flags', 'weights', 'weights_channel')     # numbering of Model/LostMap.v
 
 
 def _compositions(rng, n, maxparts=3):
@@ -414,10 +431,96 @@ def _compositions(rng, n, maxparts=3):
     return [b - a for a, b in zip([0] + cuts, cuts + [n])]
 
 
+def _cuts(comp):
+    out, a = [], 0
+    for c in comp[:-1]:
+        a += c
+        out.append(a)
+    return out
+
+
+def _from_cuts(cuts, n):
+    cuts = sorted(set(c for c in cuts if 0 < c < n))
+    return [b - a for a, b in zip([0] + cuts, cuts + [n])]
+
+
+def _related_chunking(rng, n, base):
+    """A chunking of an axis of length n for one array GIVEN the flags chunking `base` of that axis: the same grid,
+    the same grid with every boundary shifted (the first chunk is cut short; a chunk of the array then has the size of
+    a flags chunk but lies across two of them), the same block sizes in another order (same block count, other
+    boundaries), one boundary moved by one element, or a chunking drawn independently."""
+    r = rng.random()
+    if r < 0.2:
+        return list(base)
+    if r < 0.55 and max(base) > 1:
+        delta = rng.randint(1, max(base) - 1)
+        return _from_cuts([delta] + [c + delta for c in _cuts(base)], n)
+    if r < 0.7 and len(set(base)) > 1:
+        perm = list(base)
+        for _ in range(6):
+            rng.shuffle(perm)
+            if perm != list(base):
+                break
+        return perm
+    if r < 0.8 and len(base) > 1:
+        cuts = _cuts(base)
+        i = rng.randrange(len(cuts))
+        cuts[i] += rng.choice([-1, 1])
+        return _from_cuts(cuts, n)
+    return _compositions(rng, n, 4)
+
+
+def _extents(comp):
+    out, a = [], 0
+    for c in comp:
+        out.append((a, a + c))
+        a += c
+    return out
+
+
+def straddlers(chunks, name):
+    """Block indices [it, if] of the chunks of array `name` that have the (time, channel) shape of a flags chunk they
+    overlap WITHOUT coinciding with it (only possible when the boundaries of the two chunkings are shifted against
+    each other)."""
+    ft, ff = [_extents(c) for c in chunks['flags']]
+    out = []
+    for it, (t0, t1) in enumerate(_extents(chunks[name][0])):
+        for jf, (f0, f1) in enumerate(_extents(chunks[name][1])):
+            for (a0, a1) in ft:
+                for (b0, b1) in ff:
+                    overlap = a0 < t1 and t0 < a1 and b0 < f1 and f0 < b1
+                    if overlap and (a1 - a0, b1 - b0) == (t1 - t0, f1 - f0) and (a0, b0) != (t0, f0) and [it, jf] not in out:
+                        out.append([it, jf])
+    return out
+
+
+def gen_chunks(rng, T, F, layout):
+    """Chunkings (time, channel) of the four stored arrays: every array on its own, independently of the others
+    (layout 'independent'), or the three other arrays related to the flags chunking by _related_chunking (layouts
+    'related' and 'straddle'; 'straddle' insists on a correlator_data / weights chunk with the shape of a flags chunk
+    lying across flags chunks)."""
+    for _ in range(200):
+        chunks = {}
+        if layout == 'independent':
+            for name in ARRAYS:
+                chunks[name] = [_compositions(rng, T), _compositions(rng, F)]
+        else:
+            ft = _compositions(rng, T, 4)
+            if layout == 'straddle' and max(ft) < 2:
+                continue
+            chunks['flags'] = [ft, _compositions(rng, F)]
+            for name in ARRAYS:
+                if name != 'flags':
+                    chunks[name] = [_related_chunking(rng, T, chunks['flags'][0]), _related_chunking(rng, F, chunks['flags'][1])]
+        if layout != 'straddle' or straddlers(chunks, 'correlator_data') or straddlers(chunks, 'weights'):
+            return chunks
+    raise RuntimeError('no straddling layout found for T=%d F=%d' % (T, F))
+
+
 def gen_v4cal(rng, tier='quick', force=None, fixed=None):
     force = force or {}
     n_ant = rng.choice([2, 2, 3])
-    T, F = rng.randint(3, 5), rng.randint(4, 8)
+    T, F = rng.randint(3, 6), rng.randint(4, 8)
     if fixed:       # a member of a concatenation: sizes are given
         n_ant, T, F = fixed.get('n_ant', n_ant), fixed.get('T', T), fixed.get('F', F)
     ants = ['m%03d' % a for a in range(n_ant)]
@@ -448,17 +551,24 @@ def gen_v4cal(rng, tier='quick', force=None, fixed=None):
         products['B'] = events
     applycal = ['l1.' + t for t in products]
     rng.shuffle(applycal)
-    chunks = {}
-    for name in ('correlator_data', 'flags', 'weights', 'weights_channel'):
-        chunks[name] = [_compositions(rng, T), _compositions(rng, F)]
+    layout = force.get('layout') or rng.choice(['independent', 'related', 'related', 'straddle'])
+    chunks = gen_chunks(rng, T, F, layout)
     lose = []
     if force.get('lose', rng.random() < 0.8):
-        for name in ('correlator_data', 'flags', 'weights', 'weights_channel'):
+        for name in ARRAYS:
             if rng.random() < (0.7 if name == 'correlator_data' else 0.3):
                 for _ in range(rng.randint(1, 2)):
                     idx = [rng.randrange(len(chunks[name][0])), rng.randrange(len(chunks[name][1]))]
                     if [name, idx] not in lose:
                         lose.append([name, idx])
+        if layout == 'straddle':
+            # a lost chunk with the shape of a flags chunk that lies ACROSS flags chunks (never lose all of them: the
+            # elements of those flags chunks that keep their data are the interesting ones)
+            cand = [[n, i] for n in ('correlator_data', 'weights') for i in straddlers(chunks, n)]
+            rng.shuffle(cand)
+            for c in cand[:rng.randint(1, 2)]:
+                if c not in lose:
+                    lose.append(c)
         if not lose:
             lose.append(['correlator_data', [0, 0]])
     hist = []
@@ -497,7 +607,7 @@ def gen_v4cal(rng, tier='quick', force=None, fixed=None):
                 {'reset': 1}, {'flags': 'all'}] + hist
     return dict(stream='v4cal', T=T, F=F, ants=ants, seed=rng.randrange(10 ** 6), calmode=calmode,
                 cal=dict(antlist=antlist, pol_ordering=pols, products=products), applycal=applycal,
-                chunks=chunks, lose=lose, hist=hist, shuffle_bls=rng.random() < 0.3,
+                chunks=chunks, layout=layout, lose=lose, hist=hist, shuffle_bls=rng.random() < 0.3,
                 index=[rng.choice([None, None, 2]), rng.choice([None, None, 2])])
 
 
@@ -575,6 +685,28 @@ def v4cal_expected(cfg, stored, bls):
                 lostw=full(lost['weights'] | lost['weights_channel']), calok=calok, k=kk,
                 re=vis.real.astype(int), im=vis.imag.astype(int), w=stored['weights'].astype(int),
                 we=np.broadcast_to(we[:, :, np.newaxis], (T, F, B)))
+
+
+def _lost_ids(cfg):
+    """start coordinates of the deleted chunks, per array in the numbering of Model/LostMap.v."""
+    out = []
+    for name in ARRAYS:
+        ids = []
+        for n, idx in cfg['lose']:
+            if n == name:
+                comp = cfg['chunks'][name]
+                ids.append([sum(comp[0][:idx[0]]), sum(comp[1][:idx[1]])] + ([0] if name != 'weights_channel' else []))
+        out.append(ids)
+    return out
+
+
+def lostmap_wire(cfg, stored_flags, calok, hist, B):
+    """wire 163: the data set as a configuration of C06's lost-map model (chunkings as written, deleted chunk ids, the
+    stored flag bytes, the valid-correction map) + every prefix of the history."""
+    chunks = [[list(cfg['chunks'][n][0]), list(cfg['chunks'][n][1])] + ([[B]] if n != 'weights_channel' else [])
+              for n in ARRAYS]
+    return [163, [1, [_hist_wire(hist[:i + 1]) for i in range(len(hist))], chunks, [], _lost_ids(cfg),
+                  np.asarray(stored_flags).astype(int).ravel().tolist(), np.asarray(calok).astype(int).ravel().tolist()]]
 
 
 def _samples_wire(e):
@@ -669,14 +801,40 @@ def run_v4cal(ctx, cfg):
             return
         e = v4cal_expected(cfg, x.stored, bls)
         hist = cfg['hist']
+        lx = None
+        if _have(ctx, 163) and _have(ctx, 161):
+            # `where applicable` comes from the model: the lost sets of every array are derived in Coq from the chunk
+            # layout and the deleted chunk ids (Model/FlagsLost.v on C06's lost map); the harness's own masks
+            # (_chunk_mask) only serve as a cross-check of the wire encoding
+            wcase = lostmap_wire(cfg, x.stored['flags'], e['calok'], hist, B)
+            lx = ctx.model([wcase])[0]
+            if lx == [-999] or len(lx) != 7 or lx[0] != [T, F, B] or len(lx[6]) != len(hist):
+                ctx.disagree('stream=v4cal;what=model_error;wire=163', dict(stream='v4cal', cfg=cfg), None,
+                             lx if len(str(lx)) < 300 else str(lx)[:300], 'lost-map model returned an error', kind='tie')
+                return
+            if len(_INCOQ) < 12 and T * F * B <= 200:
+                _INCOQ.append((wcase, lx))
+            for k, col in (('lostf', 3), ('lostv', 4), ('lostw', 5)):
+                got = np.array(lx[col], bool).reshape(T, F, B)
+                if not np.array_equal(got, e[k]):
+                    bad = tuple(int(b) for b in np.argwhere(got != e[k])[0])
+                    ctx.disagree('stream=v4cal;what=lost_set;array=%s;vs=model' % k, dict(stream='v4cal', cfg=cfg, at=list(bad)),
+                                 bool(e[k][bad]), bool(got[bad]),
+                                 'the set of elements covered by a deleted chunk computed by the harness differs from '
+                                 'lost_in of the model', kind='tie')
+                    return
+                e[k] = got
         samples = _samples_wire(e)
-        if ctx.model_ok:
+        if _have(ctx, 161):
             mouts = ctx.model([[161, [1, _hist_wire(hist[:i + 1]), samples]] for i in range(len(hist))])
         else:
             mouts = [v4cal_py(e, hist[:i + 1]) for i in range(len(hist))]
         s1, s2 = [slice(None) if s is None else slice(None, None, s) for s in cfg.get('index', [None, None])]
         sel_names = 'all'
+        n_before = len(ctx.disagreements)
         for i, st in enumerate(hist):
+            if len(ctx.disagreements) > n_before:
+                return      # a data set stops at the first call after which something disagreed (the replay ends there)
             case = dict(stream='v4cal', cfg=dict(cfg, hist=hist[:i + 1]), step=i)
             mo = mouts[i]
             if mo == [-999] or len(mo) != 3:
@@ -686,6 +844,18 @@ def run_v4cal(ctx, cfg):
                 ctx.disagree('stream=v4cal;what=model_vs_spec_mask', case, mo[0], mo[1],
                              'model mask after the history differs from the spec mask')
             m = np.array(mo[2], dtype=np.int64).reshape(T, F, B, 9)
+            if lx is not None:
+                # raw flags / flags: MODEL = the lost map algorithm of ChunkStoreVisFlagsWeights (columns 0, 1),
+                # SPEC = stored | data_lost on the exact lost set | postproc on the exact invalid set (columns 7, 8);
+                # the per-sample model of wire 161 fed with the exact lost sets must say the same (refinement theorem)
+                hx = lx[6][i]
+                m163 = np.stack([np.array(lx[1]), np.array(hx[2]), np.array(lx[2]), np.array(hx[3])], axis=1).reshape(T, F, B, 4)
+                if hx[0] != mo[0] or hx[1] != mo[1] or not np.array_equal(m163[..., 2], m[..., 7]) \
+                        or not np.array_equal(m163[..., 3], m[..., 8]):
+                    ctx.disagree('stream=v4cal;what=sample_spec_vs_lostmap_spec', case, [hx[0], hx[1]], [mo[0], mo[1]],
+                                 'spec columns of wire 161 (fed with the exact lost sets) and of wire 163 differ', kind='tie')
+                    return
+                m[..., 0], m[..., 1] = m163[..., 0], m163[..., 1]
             sel_names = st.get('flags', sel_names)
             try:
                 kw = _select_kwargs(st)
@@ -716,7 +886,9 @@ def run_v4cal(ctx, cfg):
                 exp_raw = ms[..., c_raw]
                 if not np.array_equal(raw, exp_raw):
                     bad = tuple(np.argwhere(raw != exp_raw)[0])
-                    ctx.disagree('stream=v4cal;obs=raw_flags;bits=%s;%s%s' % (_bit_names(raw ^ exp_raw.astype(np.uint8)), tag, sfx),
+                    lost_here = bool((e['lostf'] | e['lostv'] | e['lostw'])[ix][s1, s2][bad])
+                    ctx.disagree('stream=v4cal;obs=raw_flags;bits=%s;element=%s;%s%s'
+                                 % (_bit_names(raw ^ exp_raw.astype(np.uint8)), 'lost' if lost_here else 'intact', tag, sfx),
                                  dict(case, at=[int(b) for b in bad]), int(raw[bad]), int(ms[bad][0]),
                                  'v4 raw_flags differ from stored | data_lost | postproc under the current flag selection %r'
                                  % (sel_names,), spec=int(ms[bad][7]), kind=kind)
@@ -993,7 +1165,7 @@ def run_concat(ctx, cfg):
                  for f, steps in zip(fmts, cfg['pre'])]
         hwire = [([1, st['member']] if 'member' in st else [0]) + [_wire_opt(st, 'flags'), _wire_opt(st, 'weights')]
                  for st in hist]
-        if ctx.model_ok:
+        if _have(ctx, 162):
             mo = ctx.model([[162, [2, mwire, hwire]]])[0]
             _INCOQ.append(([162, [2, mwire, hwire]], mo))
         else:
